@@ -1,4 +1,6 @@
 //! independent encoders (model -> bytes). Nothing here calls an allsorts writer.
 
+pub mod basic;
 pub mod buf;
+pub mod sfnt;
 pub mod var;
